@@ -479,3 +479,16 @@ def _line_line():
 spec("Inter", "line_line", pp("p0", "p1", "q0", "q1"), None,
      "Line.intersections(Line): [t1, t2] of the reported intersection or [] (IntersectionsMixin.intersections + _line_line_intersections; "
      "tOfPoint calls are calls of the generated line_tOfPoint definitions)")(_with_opaque_tOfPoint(_line_line))
+
+
+def _ray_line():
+    ray = Line(Point(V("lx"), V("py")), Point(V("px"), V("py")))
+    res = lin("p0", "p1").intersections(ray)
+    out = []
+    for i in res:
+        out += [i.t1, i.t2]
+    return out
+
+
+spec("Inter", "ray_line", pp("p0", "p1") + ["lx", "px", "py"], None,
+     "Line(p0,p1).intersections(ray) for the horizontal ray from (lx, py) to (px, py) that windingNumberOfPoint builds: [t1, t2] or []")(_with_opaque_tOfPoint(_ray_line))
